@@ -134,6 +134,10 @@ class Engine(ExprEval, NumpyModel, NumpyFuncs):
             return ext(self, st, o, node)
         if name in self.externals.get("methods", {}):
             return FuncRef("extmethod", name, self_obj=o, name=f"{o.cls.name}.{name}")
+        where = self.repo.attr_assigned_in_class(o.cls, name)
+        if where is not None:
+            # the class does set this attribute somewhere: the contract's object model is incomplete, nothing is known about the code
+            raise Unsupported(f"attribute {o.cls.name}.{name} (assigned in {where}) is not part of the contract's object model")
         raise Unsupported(f"attribute {o.cls.name}.{name} is not defined on this path (AttributeError in python)")
 
     def obj_setattr(self, st, o: ObjRef, name, val, node):
